@@ -134,8 +134,12 @@ WireFtpParent == {
 
 Segs == {"whole", "bytes1", "lines"}
 
-WireOf(tab, ctx, segs) == {[mode |-> "wire", ctx |-> ctx, cls |-> r[1], site |-> r[2], kind |-> r[3], seg |-> g] :
-                             r \in tab, g \in segs}
+\* raw deflate delivered one byte at a time: zlib accepts the first piece as a zlib header and fails on the second, and
+\* the decoder does not fall back any more (decompression.py:84-93; DESIGN section 6 finding 12): a per-URL ProtocolError
+SegExpect(r, g) == IF r[1] = "df_raw" /\ g = "bytes1" THEN <<r[1], "h_decompress", "ZlibError">> ELSE r
+
+WireOf(tab, ctx, segs) == {[mode |-> "wire", ctx |-> ctx, cls |-> SegExpect(r, g)[1], site |-> SegExpect(r, g)[2],
+                            kind |-> SegExpect(r, g)[3], seg |-> g] : r \in tab, g \in segs}
 WireCases == WireOf(WirePage, "page", Segs) \cup WireOf(WireRobots, "robots", Segs)
              \cup WireOf(WireFtp, "ftp", {"whole", "bytes1"}) \cup WireOf(WireFtpListing, "ftplist", {"whole", "bytes1"})
              \cup WireOf(WireFtpParent, "ftpparent", {"whole"})
